@@ -2,6 +2,7 @@
 import multiprocessing as mp
 import random
 
+from vf import engine_p
 from vf import execharness as H
 from vf.props.c04 import compare
 from vf.report import MachineryDefect, Run
@@ -126,7 +127,8 @@ def check(tier, seed):
     run.trusted("vf/ref_exec.py; the parking executor stands for concurrent.futures.ThreadPoolExecutor (done-callbacks run atomically)")
     run.assume("pre-emptive thread interleavings inside done-callbacks (gather_futures.on_finish counter, double set_result) are outside this family's "
                "reach: callbacks are atomic here; fair termination for unbounded operations is not decided")
-    return run.finish("other", "bounded stand-in: every configuration satisfies the same functional contract as C04 (reference executor) for every "
+    engine_p.run(run, 'C08')
+    return run.finish("other", "BlockingRuntime.map_value checked against the map_value effect contract (Engine P); bounded stand-in: every configuration satisfies the same functional contract as C04 (reference executor) for every "
                                "enumerated completion order; equality across configurations is a corollary; unexpected exceptions fail the result; "
                                "nothing stays pending once all tasks have run",
                       checker_cmd="./check C08 --tier %s" % tier)
